@@ -119,6 +119,7 @@ def c03(run):
     # one variable beyond the exhaustive bound, densely: uniformly random operand pairs over 4 variables
     # (defects that need 4 variables were seen to affect as few as 1 in 10^5 pairs)
     record_and_validate(run, 4, "uniform", 2000000 if t else 400000, "bin", "uniform_nv4", shards=16)
+    record_and_validate(run, 5, "uniform", 600000 if t else 100000, "bin", "uniform_nv5", shards=16)
     if t:
         record_and_validate(run, 4, "allwf", 0, "not", "not_nv4", shards=16)
     run.nontrivial = nontriv - 2 * 256 - 16  # minus cases with a constant first operand (counted by rows)
@@ -155,6 +156,8 @@ def c05(run):
         mc_bdd(run, "C05c", 3, lmax=2, emit=False, name="mc_C05c_nv3", timeout=7200)
     record_and_validate(run, 6, "random", 4000 if t else 500, "cc,cl", "rand")
     record_and_validate(run, 3, "random", 6000 if t else 1200, "cc,cl", "rand_nv3")
+    # longer lists (up to 8 operands against a constant, 5 + 5 list-vs-list) over 4 variables
+    record_and_validate(run, 4, "random", 5000 if t else 800, "ccl", "long_lists_nv4")
     # the formula language's counting forms ([..] = / <= / >= / < / > constant or list; constants beyond every
     # list length): the builder formulas of MC_Lang that contain a counting node, evaluated by the real solver
     import checks_lang
